@@ -241,11 +241,23 @@ class Lookup(ABC):
         :param cards: The cards to look up.
         :return: The optional corresponding lookup entry.
         """
-        return self.__entries.get(self._get_key(cards))
+        try:
+            key = self._get_key(cards)
+        except ValueError:
+            return None
+
+        return self.__entries.get(key)
 
     def _get_key(self, cards: CardsLike) -> tuple[int, bool]:
         cards = Card.clean(cards)
-        hash_ = self.__hash(Card.get_ranks(cards))
+
+        try:
+            hash_ = self.__hash(Card.get_ranks(cards))
+        except KeyError:
+            raise ValueError(
+                f'The cards {repr(cards)} contain a card of unknown rank.',
+            )
+
         suitedness = Card.are_suited(cards)
 
         return hash_, suitedness
